@@ -58,7 +58,8 @@ Ops == [
   Invalidate |-> <<S("acq", "mu"), S("rd", "names"), S("rd", "deleters"), S("rel", "mu"),       \* snapshot, iterated later
                    S("acq", "mu"), S("rd", "labels"), S("wr", "labels"), S("rel", "mu")>>,        \* cutKeys / put-back
   (* Invalidator *)
-  InvalidatorCall |-> <<S("rd", "callbacks"), S("acq", "imu"), S("rd", "lastrun"), S("wr", "lastrun"), S("rel", "imu")>>
+  InvalidatorCall |-> <<S("rd", "callbacks"), S("acq", "imu"), S("rd", "skipinterval"), S("wr", "skipinterval"),   \* default installed under the mutex
+                        S("rd", "lastrun"), S("wr", "lastrun"), S("rel", "imu")>>
 ]
 
 OpNames == DOMAIN Ops
